@@ -617,29 +617,34 @@ PROPS["C13"] = dict(
     corr_module="Corr.C13",
     streams={
         "api": dict(runner="C13_api_run", in_t="C13_api_in", out_t="C13_api_out", shard=12, imports=["Model.VecSearch"]),
-        "nan": dict(runner="C13_nan_run", in_t="C13_api_in", out_t="C13_nan_out", shard=12, imports=["Model.VecSearch"]),
+        "nan": dict(runner="C13_api_run", in_t="C13_api_in", out_t="C13_api_out", shard=12, imports=["Model.VecSearch"]),
         "mem": dict(runner="C13_mem_run", in_t="C13_mem_in", out_t="C13_mem_out", shard=4, imports=["Model.VecSearch"]),
     },
     n_quick=150, n_thorough=3000,
     harness_timeout=3000,
-    rule="api: VecIndexBuilder -> finish -> VecIndex::decode -> search on 0-300 documents (0, 1, 2-8, 9-40, 41-120, 121-300), dimensions 1-64 (biased to 1-9 and the 8-lane edges 7/8/9, 15/16/17, 31/32/33, 63/64), "
+    rule="fixed corpus first: the witnesses of the three repaired defects and their neighbourhood (empty embedding after / before real ones on a real memory, inf and NaN components on a real memory, "
+         "the five-vector order witness, the 21-vector sort-panic witness and the sign-set-NaN witness on the API, inf - inf on a real memory); "
+         "then a lane corpus: for EVERY dimension 1..40 and 47/48/49, 63/64/65, 127/128/129, 383/384/385 (all residues mod 8, 16, 32) documents that differ from the query in exactly one coordinate -- the last, the first, the middle, and both sides of the last multiples of 8, 16, 32 -- by 1, 2, 3, stored out of distance order (a unit test of the harness shows that a 16-lane kernel with a wrong scalar-tail start is flagged at every dimension with d mod 16 in 9..15); "
+         "api: VecIndexBuilder -> finish -> VecIndex::decode -> search on 0-300 documents (0, 1, 2-8, 9-40, 41-120, 121-300), dimensions uniform in 1..40 (4/5) or one of the twelve edge dimensions (1/5), the first 16 generated cases forced to 17..32, the first 10 histories to 13, 29, 9, 16, 12, 33, 15, 8, 27, 64 (tags dim=<n> and dim%16=<r> give the distribution); "
+         "documents drawn independently or from one base vector changed only in its last 1-3 coordinates / first 1-3 / one random coordinate, queries = the base vector or such a neighbour; "
          "components ternary / small integers / binary (many exact ties), uniform floats, finite extremes (+-MAX, subnormals, 1e38: distances overflow to +inf), whole vectors duplicated, frame ids increasing / decreasing / repeated / sparse, "
          "one document of another dimension in 1/12 of the cases; 2-5 queries each (a stored vector, empty, dimension +-1, integer, same style) with k in {0, 1, m-1, m, m+1, m+5, usize::MAX, random}; "
          "compared: vector_count, dimension, and per query Panic or the exact hit list as (frame id, distance bits); decode(finish().bytes) must hold the documents bit for bit; "
-         "nan: the same with NaN/+-inf components (outside the guard: length and multiset of hits compared, a sort panic is not compared); "
-         "mem: histories of 3-90 ops (120-330 in thorough) on a real memory: enable_vec, put with embedding (fresh, duplicate, wrong dimension, none, empty in 1/8 of the histories), delete, delete-everything, commit, close+reopen, "
-         "search_vec before commit / after commit / after reopen with right, wrong and empty queries, the last queries repeated across a clean reopen; plus one scripted history through the dimension corners and one witness per known finding; "
+         "nan: the same with NaN/+-inf components in documents and queries (NaN distances of both signs, +inf distances), compared exactly like api; "
+         "mem: histories of 3-90 ops (120-330 in thorough) on a real memory: enable_vec, put with embedding (fresh, duplicate, wrong dimension, none, EMPTY in 1/4 of the histories, NaN/inf components in 1/7), delete, delete-everything, commit, close+reopen, "
+         "search_vec before commit / after commit / after reopen with right, wrong and empty queries, the last queries repeated across a clean reopen; plus one scripted history through the dimension corners; "
          "non-trivial = a search over at least 2 documents with k >= 1 answered; distinct by BLAKE3 of the case; "
-         "property oracle: brute-force recomputation with the real kernel (count = min(k, m), hits are distinct documents of the reference set with the kernel's distance bits, pairwise non-decreasing, no omitted document strictly closer than the last hit, wrong dimension rejected, right dimension answered, no panic, identical answers after reopen); tie order is not demanded by the oracle (only by the model comparison)",
-    level_text="Unbounded theorems over a line-by-line model of VecIndex::search (Uncompressed), VecIndexBuilder::finish, Memvid::search_vec, effective_vec_index_dimension, the embedding dimension contract of put_internal and the vector part of commit / delete / open, generic in the embedding type, the distance function and the comparison (no float axioms): for a total preorder on the non-NaN distance values the search returns min(k, m) hits, a sorted prefix of a permutation of all (frame, distance) pairs, no omitted document closer than a returned one, ties in insertion order, and this answer is the ONLY list meeting the property (sorted + stable is unique, so the model does not depend on std's sort algorithm: merge sort = insertion sort); for every history of put/delete/commit/reopen/search calls outside the known classes a query of another dimension is rejected before any distance is computed, a query of the index dimension gets the exact nearest neighbours of the committed active embeddings, search_vec never panics, and close+reopen yields the committed state (identical answers). The property as stated is REFUTED in two classes, recorded as known findings: an accepted empty embedding makes search_vec panic (F-C13-1), a NaN distance breaks the order or panics inside sort_by (F-C13-2). Model tied to the code by differential runs on the public VecIndex API and on real memories.",
-    level_note="Trusted: Coq kernel + vm_compute; hand-written model (tied by correspondence: exact hit lists as (frame id, f32 bits) on ~500 searches over the API and ~150 calls on real memories per quick run); the L2 kernel is abstract in the theorems (C38 models it) and instantiated at run time by the table of the real kernel's outputs; f32 ordering of non-negative non-NaN floats = ordering of their bit patterns; bincode round trip of Vec<VecDocument> is a Section hypothesis (C30) tested by the harness; which frames are committed/active and which id a put gets are oracle inputs (C01/C06/C14); debug-profile semantics for the kernel's length assertion. Outside the guard no_nan_distance std's sort is not modelled (it may panic).",
+         "property oracle 1 (independent of the crate's distance function): f64 reference distances; every reported distance within (dim+8)*2.4e-7 relative of the reference of a document with that frame id, no later hit and no omitted document closer than an earlier / the last hit beyond that margin (applied whenever no coordinate difference under- or overflows in f32: all integer, uniform and lane-corpus cases); "
+         "property oracle 2: brute-force recomputation with the real kernel, NaN distance = undefined = farthest (count = min(k, m), hits are distinct documents of the reference set with the kernel's distance bits, no later hit strictly closer than an earlier one, no omitted document strictly closer than the last hit, wrong dimension rejected, right dimension answered, no panic, identical answers after reopen, a frame put with an empty vector is not an embedded frame); tie order is not demanded by the oracle (only by the model comparison)",
+    level_text="Unbounded theorems over a line-by-line model of VecIndex::search (Uncompressed, sort_by (is_nan, total_cmp)), VecIndexBuilder::finish, Memvid::search_vec, effective_vec_index_dimension, the embedding dimension contract of put_internal (empty vectors dropped) and the vector part of commit / delete / open, generic in the embedding type and the distance kernel (no float axioms): for EVERY history of enable/put/delete/commit/reopen/search calls (embeddings below 2^32 components) and every kernel, a query of the index dimension gets exactly the nearest neighbours of the committed active embeddings in the total order the code sorts by (numbers by total_cmp, then NaNs of either sign) -- min(k, m) hits, a sorted prefix of a permutation of all (frame, distance) pairs, nothing omitted below a returned hit, ties (identical bit patterns) in insertion order -- with no guard on the distance values; this answer is the only list meeting the property (sorted + stable is unique, so the model does not depend on std's sort algorithm); a query of another dimension is rejected before any distance is computed; search_vec never panics; close+reopen yields the committed state (identical answers). Numeric reading (NaN of either sign = undefined = farthest): non-decreasing numeric order, NaN last, no omitted frame strictly closer, under the single hypothesis on the kernel that no distance is a negative number. No known class. The three defects found earlier (empty embedding -> panic; NaN distance -> wrong order / sort panic; sign-set NaN first under plain total_cmp) are repaired in /repo and kept as historical _unfixed lemmas and regression examples. Model tied to the code by differential runs on the public VecIndex API and on real memories.",
+    level_note="Trusted: Coq kernel + vm_compute; hand-written model (tied by correspondence: exact hit lists as (frame id, f32 bits) on ~600 searches over the API, NaN/inf included, and ~400 calls on real memories per quick run); the L2 kernel is abstract in the theorems (C38 models it) and instantiated at run time by the table of the real kernel's outputs; the comparator is_nan().cmp().then_with(total_cmp) modelled on bit patterns (is_nan = exponent all ones and mantissa non-zero; total_cmp: sign-clear patterns keep their value, 2^31+m becomes -1-m); numeric reading uses: non-negative floats order like their bit patterns; bincode round trip of Vec<VecDocument> is a Section hypothesis (C30) tested by the harness; which frames are committed/active and which id a put gets are oracle inputs (C01/C06/C14); debug-profile semantics for the kernel's length assertion (reachable only through the public VecIndex API with documents of mixed dimension, never through a memory).",
     trusted_base=["distance kernel simd::l2_distance_simd is a Section variable `dist`; in the correspondence run it is the finite table of the real kernel's results for (query, vector) pairs",
-                  "distance values are compared as f32 bit patterns (None = NaN): non-negative non-NaN floats order like their bits",
+                  "distance values are raw f32 bit patterns; the comparison is modelled as f32_nan_last_le = (f32_is_nan, total_key) lexicographic (Model/VecSearch.v); the numeric reading relies on: non-negative non-NaN floats order like their bit patterns",
                   "bincode round trip of Vec<VecDocument> (decode(encode(docs)) = docs, all bytes read) is a hypothesis of C13_index_bytes_roundtrip; the harness checks it on every api case",
                   "frame ids of puts, success of deletes and automatic checkpoints are read from the implementation (store driver) and are inputs of the history model"],
     assumptions=["crate built without feature `vec` (as the harness does): no HNSW branch; with the feature on, indexes of >= 1000 vectors use an approximate graph for which the property is not claimed",
-                 "no_nan_distance: every distance from the query to an indexed embedding is not NaN (outside: known finding F-C13-2; count and membership still proved)",
-                 "no embedding of length 0 is put (outside: known finding F-C13-1) and embeddings/queries have fewer than 2^32 components (the dimension check casts to u32)",
+                 "embeddings and queries have fewer than 2^32 components (the dimension contract casts the length to u32)",
+                 "numeric reading only: no distance returned by the kernel is a negative number (f32_not_negative: sign bit set only on a NaN); true of a square root of a sum of squares, observed on every case of the run (tag negative-distance would appear otherwise)",
                  "segment catalog of vector segments is empty (never populated without feature parallel_segments); effective_vec_index_dimension's segment loop is modelled but not exercised",
                  "before the first commit of an embedding, and for a memory that never had one, search_vec returns VecNotEnabled rather than an empty list; an emptied index returns [] for every query dimension (modelled as the code has it)",
                  "update_frame and chunk embeddings are not part of the history model (index membership: C14)"],
@@ -990,19 +995,19 @@ PROPS["C28"] = dict(
     harness_timeout=3000,
     rule="histories of 6-22 ops on a real memory, three profiles (general; blank / binary frames that break sketch-id density; instant-indexed puts with default options): puts of short text / chunked text >= 2500 chars / whitespace-only / binary payloads, "
          "with or without a 4-dimensional embedding, explicit uris reused across frames, track / tag / label options, instant_index on or off, update_frame with and without payload / embedding on live, inactive and missing ids, delete_frame likewise, commit, reopen, exit-without-commit + reopen; "
-         "at up to four fully committed points per history the file is byte-copied three times and FOUR handles are read: live, copy reopened read-write, copy opened read-only (Memvid::open_read_only), copy opened after doctor{rebuild_lex_index and/or rebuild_time_index}; "
+         "at up to four fully committed points per history the file is byte-copied three times and FOUR handles are read: live, copy reopened read-write, copy opened read-only (Memvid::open_read_only), copy opened after doctor{rebuild_lex_index and/or rebuild_time_index, in half of the points also rebuild_vec_index}; "
          "compared with the model for each handle: frame count, engine documents holding the probe word, vector-index ids, vec enabled, time-index ids, sketch ids in track order (the reopened handles must show the renumbered ids 0..n-1), per-op result / frame_count / next_frame_id, "
          "and at points with pending records the ids a search for the probe word returns (engine documents incl. instant-index temporaries, restricted to the table); "
          "property oracle (independent of the model): a battery of 30 lexical queries (single words, AND / OR / NOT, phrase, track: / tag: / label: / uri: / scope: terms, uri and scope request filters, three date ranges; top_k 7 or 50; no_sketch = true), 5 vector queries (k = 1, 3, 10, 100, 10^5; distance bit patterns) and 4 timeline queries (all, reverse + limit, since, since + until + limit; with child frames) "
-         "must give identical ordered (frame id, range) lists / totals / error kinds on the four handles (handles-differ); the same lexical battery with the sketch pre-filter on, a difference being the known class prefilter-sketch-ids-not-dense only when the live sketch ids are not 0..n-1 (else prefilter-differs); "
+         "must give identical ordered (frame id, range) lists / totals / error kinds on the four handles (handles-differ; only exception: doctor{rebuild_vec_index} on a memory without vector index must answer the empty list where the live handle answers VecNotEnabled, else doctor-vec-not-empty); the same lexical battery with the sketch pre-filter on, a difference being the known class prefilter-sketch-ids-not-dense only when the live sketch ids are not 0..n-1 (else prefilter-differs); "
          "between a put and its commit searches for words of pending documents, of committed documents and common words, with and without the pre-filter: every hit must be a frame whose text contains the word (precommit-hit-without-query), hits outside the table must be pending documents put by the harness; "
          "non-trivial = at least one four-handle point on a memory with >= 3 frames (profile 2: also a pre-commit read); distinct by digest of the op list",
     level_text="Unbounded theorems over a model with an explicit file image (Model/Persist.v on Model/Reads.v / Model/Store.v): commit_from_records persists exactly what rebuild_indexes / flush_tantivy / persist_sketch_track write (time index from the table, the engine's documents as embedded segments, the vector artifact, the sketch entries without ids), "
                "Memvid::open / open_read_only / doctor build the handle from the image only (init_tantivy trusts listed segments, else rebuilds when counts differ; load_vec_index_from_manifest; read_sketch_track renumbers). Proved for EVERY history by an invariant over the operation list: "
-               "the machine that reloads from the image is step for step the machine of C08 that keeps the sets in memory; for every fully committed state the reopened read-write, read-only and doctored (rebuild_lex / rebuild_time) handles hold the live frame table, Tantivy documents, vector index and time index, hence search / vector search / timeline "
-               "(engines as oracles over what the handle holds) answer identically outside the class of F-C39-1; inside it the statement is refuted by a three-step witness; doctor{rebuild_vec_index} empties the vector index (F-C14-1); between a put and its commit every hit is a committed frame on which the query evaluates to true and never the temporary document (id next_frame_id, not in the table). "
+               "the machine that reloads from the image is step for step the machine of C08 that keeps the sets in memory; for every fully committed state the reopened read-write, read-only and doctored (any subset of rebuild_lex / rebuild_time / rebuild_vec) handles hold the live frame table, Tantivy documents, vector index and time index, hence search / vector search / timeline "
+               "(engines as oracles over what the handle holds) answer identically outside the class of F-C39-1; inside it the statement is refuted by a three-step witness; doctor{rebuild_vec_index} keeps the vector index and leaves vector search enabled (code since 83a83e8; the earlier emptying, F-C14-1, only as the historical lemma C28_doctor_vec_rebuild_emptied_unfixed); between a put and its commit every hit is a committed frame on which the query evaluates to true and never the temporary document (id next_frame_id, not in the table). "
                "The vector and time-index parts are also derived on the C14 / C15 models (load after persist, doctor rebuild_time_index).",
-    level_note="Property as stated is REFUTED in one class, recorded as known finding prefilter-sketch-ids-not-dense (= F-C39-1 seen from Memvid::search: the sketch track stores no frame ids, a reopened handle renumbers its entries, so the pre-filter's candidate set changes whenever some frame has no sketch entry); proved outside it and with doctor's rebuild_vec_index off (F-C14-1). "
+    level_note="Property as stated is REFUTED in one class, recorded as known finding prefilter-sketch-ids-not-dense (= F-C39-1 seen from Memvid::search: the sketch track stores no frame ids, a reopened handle renumbers its entries, so the pre-filter's candidate set changes whenever some frame has no sketch entry); proved outside it. doctor{rebuild_vec_index} on a memory that has no vector index enables an empty one: vector search then answers [] instead of VecNotEnabled (stated in C28_same_answers_outside_known). "
                "Partial: Tantivy's search (BM25 ranking, tie order, the frame filter), ParsedQuery::evaluate / snippet slices, the sketch test of one entry and the vector ranking are Section variables that answer from what the handle holds - equal sets give equal answers by construction, the four-handle battery on real memories is what ties ranking and tie order to the code; "
                "the candidate set of find_sketch_candidates is modelled for tracks of at most 500 entries (below the truncation); the legacy LexIndex fallback is not modelled (Tantivy-only memories never have its manifest; when every Tantivy hit is culled search returns LexNotEnabled, the same on all handles); Quiet (nothing pending, not dirty) is the hypothesis 'committed history'.",
     trusted_base=["engine oracles: Tantivy search_documents over the engine's documents with the optional frame filter, ParsedQuery::evaluate / snippet slices per hit, QuerySketch::score_entry per sketch entry, VecIndex::search",
@@ -1205,7 +1210,7 @@ PROPS["C09"] = dict(
 )
 
 # Temporarily held while the models are being updated to repaired /repo code (2026-09-22):
-for _pid in ("C13", "C28"):
+for _pid in ():
     PROPS[_pid]["hold"] = True
 
 PROPS["C07"] = dict(
